@@ -26,6 +26,7 @@ type CliCfg struct {
 	WriteFaults []int
 	DialFaults  bool // a dial may be refused
 	SrvClose    bool // the server may close right after replying
+	Closer      bool // a further thread calls Close on the client at any time
 	LibMw       bool // the client is built with the library's own middlewares (TimeoutMiddleware, CorrelationValueMiddleware, DebugMiddleware)
 	SrvStray    bool // the server sends an unsolicited request message before every response (the client must skip it)
 	CheckFaults bool // apply the C11 recovery oracle
@@ -44,6 +45,7 @@ type cliWorld struct {
 	faults int            // environment faults injected so far (observed by the harness, single-threaded access)
 	seen   map[string]int // request transmissions seen by servers, per identifier
 	conns  []*Conn
+	closeReturned mc.Var[bool] // set once the closer thread's Close has returned
 }
 
 // echoServer answers each Activate request with its own identifier; DiscoverVersions with 1.4..1.0.
@@ -100,6 +102,7 @@ func (w *cliWorld) echoServer(c *Conn) {
 
 func (w *cliWorld) dialer(ctx context.Context) (net.Conn, error) {
 	mc.Yield("dial")
+
 	if w.cfg.DialFaults {
 		if mc.Choose("dial.env", 2) == 1 {
 			w.faults++
@@ -177,7 +180,11 @@ func clientScenario(cfg CliCfg) func() {
 				prevFailed := false
 				for _, c := range calls {
 					fb := w.faults
+					closedBefore := cfg.Closer && w.closeReturned.Load()
 					ok := w.call(cl, c)
+					if ok && closedBefore {
+						mc.Failf("call-after-close-succeeded: call %s, started after Close had returned, got a response", c.ID)
+					}
 					if cfg.CheckFaults && len(cfg.Callers) == 1 && c.Ctx == "" {
 						if !ok && prevFailed && w.faults == fb {
 							mc.Failf("no-recovery: call %s failed although the previous call had already failed and no fault was injected during it (dials so far %d)", c.ID, w.dials)
@@ -196,10 +203,28 @@ func clientScenario(cfg CliCfg) func() {
 				mc.GoNamed(fmt.Sprintf("caller%d", i), body)
 			}
 		}
+		if cfg.Closer {
+			mc.GoNamed("closer", func() {
+				_ = cl.Close()
+				w.closeReturned.Store(true)
+			})
+		}
 		for _, d := range done {
 			d.Await(true)
 		}
-		_ = cl.Close()
+		if cfg.Closer {
+			// the closer's Close was the only one: once everything is quiescent no connection of the client may be left
+			// open (a connection dialled by a call that overlapped Close must have been released by the client itself)
+			w.closeReturned.Await(true)
+			mc.Yield("settle")
+			for i, cn := range w.conns {
+				if !cn.localClosed {
+					mc.Failf("call-after-close-connection-left-open: connection %d of the client is still open after Close returned and all calls ended", i+1)
+				}
+			}
+		} else {
+			_ = cl.Close()
+		}
 		if cfg.AfterClose {
 			_ = cl.Close()
 			if _, err := cl.Request(context.Background(), &payloads.ActivateRequestPayload{UniqueIdentifier: "after-close"}); err == nil {
@@ -237,6 +262,9 @@ func init() {
 	cli("clf-seq3-dial", "three sequential calls; reads may fail and dials may be refused", CliCfg{Callers: [][]Call{{{ID: "A"}, {ID: "B"}, {ID: "C"}}}, ReadFaults: []int{FEOF}, DialFaults: true, CheckFaults: true, AfterClose: true})
 	cli("clf-negotiate", "dial with version discovery under faults, then two calls", CliCfg{Negotiate: true, Callers: [][]Call{{{ID: "A"}, {ID: "B"}}}, ReadFaults: rf, WriteFaults: wf, CheckFaults: true, AfterClose: true})
 	cli("clf-par-2", "two concurrent callers (two calls each) under read/write faults", CliCfg{Callers: [][]Call{{{ID: "A"}, {ID: "C"}}, {{ID: "B"}, {ID: "D"}}}, ReadFaults: rf, WriteFaults: wf, SrvClose: true})
+	cli("clf-close-during-call", "Close called by another thread at any time while a caller performs two calls: no dial and no successful call once Close has returned, nothing left behind", CliCfg{Closer: true, AfterClose: true, Callers: [][]Call{{{ID: "A"}, {ID: "B"}}}})
+	cli("clf-close-during-call-srvclose", "the same while the server may close right after replying", CliCfg{Closer: true, SrvClose: true, AfterClose: true, Callers: [][]Call{{{ID: "A"}, {ID: "B"}}}})
+	cli("clf-close-during-par", "Close at any time while two callers call concurrently", CliCfg{Closer: true, AfterClose: true, Callers: [][]Call{{{ID: "A"}}, {{ID: "B"}}}})
 	cli("clf-close-only", "no faults: calls, close, call after close fails, close is idempotent", CliCfg{Callers: [][]Call{{{ID: "A"}}}, AfterClose: true, CheckFaults: true})
 }
 
